@@ -591,7 +591,7 @@ func openDataset(dsJSON string, distributed bool) (*cluster, error) {
 				return nil, fmt.Errorf("write: %w", err)
 			}
 		}
-		if c.ds.Flush && !e.WaitFlushed(10*time.Second) {
+		if c.ds.Flush && !e.WaitFlushed(60*time.Second) {
 			return nil, fmt.Errorf("flush did not finish")
 		}
 		c.layout = e.Layout()
@@ -624,7 +624,7 @@ func openDataset(dsJSON string, distributed bool) (*cluster, error) {
 		}
 	}
 	for _, e := range c.nodes {
-		if c.ds.Flush && !e.WaitFlushed(10*time.Second) {
+		if c.ds.Flush && !e.WaitFlushed(60*time.Second) {
 			return nil, fmt.Errorf("flush did not finish")
 		}
 		c.nlayout += e.Layout() + "|"
